@@ -70,6 +70,12 @@ def check(acc, desc, values=True, repeat=False):
     try:
         if case.get("repeat"):
             cg.tx.acyclic_unroll(c)  # an earlier call on the same object must not matter
+            if case["repeat"] == "edit":
+                flip = {"and": "or", "or": "and", "xor": "xnor", "xnor": "xor", "nand": "nor", "nor": "nand", "buf": "not", "not": "buf"}
+                for g in sorted(c.graph.nodes):
+                    if c.type(g) in flip:
+                        c.set_type(g, flip[c.type(g)])   # edit in place, then ask again
+                        break
         r = cg.tx.acyclic_unroll(c)
     except Exception as e:  # noqa: BLE001
         acc.violation("cyclic", f"raises:{common.exc_name(e)}", case, repr(e))
@@ -185,8 +191,9 @@ def run(job):
             if check(acc, desc):
                 acc.nontrivial += 1
         if (_idx // job["of"]) % 8 == 0:
-            acc.states += 1
+            acc.states += 2
             check(acc, desc, repeat=True)
+            check(acc, desc, repeat="edit")
         acc.sample({"desc": desc})
         if acc.out_of_time():
             break
